@@ -14,6 +14,7 @@ package main
 
 import (
 	"fmt"
+	"os"
 	"go/types"
 	"unicode"
 
@@ -23,9 +24,10 @@ import (
 var curCtx *Ctx
 
 type helperInfo struct {
-	site   ssa.CallInstruction   // the first call site
-	sites  []ssa.CallInstruction // all call sites: all of them in the same function
-	caller *ssa.Function
+	site    ssa.CallInstruction   // the first call site
+	sites   []ssa.CallInstruction // all call sites: all of them in the same function
+	caller  *ssa.Function
+	closure *ssa.MakeClosure // for a private closure with captured variables: where it is made
 }
 
 func (c *Ctx) buildHelperIndex() {
@@ -88,6 +90,59 @@ func (c *Ctx) buildHelperIndex() {
 		}
 		c.helpers[fn] = &helperInfo{site: site, sites: sites[fn], caller: caller}
 	}
+	// private closures: a function literal that is only ever called, directly, from the function that makes it
+	// (`file := func(...) {...}; file(a); file(b)`) is a helper written in place. A literal that is stored, passed,
+	// returned, deferred, started as a goroutine or reassigned is not.
+	for _, fn := range c.Funcs {
+		if fn.Parent() == nil || fn.Blocks == nil || len(sites[fn]) == 0 || len(sites[fn]) > 4 {
+			continue
+		}
+		var mc *ssa.MakeClosure
+		okUse := true
+		made := 0
+		eachInstr(fn.Parent(), func(in ssa.Instruction) {
+			if m, isM := in.(*ssa.MakeClosure); isM && m.Fn == fn {
+				mc = m
+				made++
+			}
+		})
+		if made > 1 {
+			continue
+		}
+		if mc != nil {
+			for _, r := range *mc.Referrers() {
+				call, isCall := r.(*ssa.Call)
+				if !isCall || call.Call.Value != mc {
+					okUse = false
+					break
+				}
+				for _, a := range call.Call.Args {
+					if a == mc {
+						okUse = false
+					}
+				}
+			}
+		} else if asValue[fn] {
+			okUse = false
+		}
+		if !okUse {
+			continue
+		}
+		for _, st := range sites[fn] {
+			if _, isCall := st.(*ssa.Call); !isCall || st.Parent() != fn.Parent() {
+				okUse = false
+			}
+		}
+		if !okUse {
+			continue
+		}
+		c.helpers[fn] = &helperInfo{site: sites[fn][0], sites: sites[fn], caller: fn.Parent(), closure: mc}
+	}
+	defer func() {
+		if os.Getenv("VERIF_DEBUG_HELPERS") != "" {
+			c.dumpHelpers()
+		}
+	}()
 	// drop helpers on a cycle (a calls b calls a through single sites)
 	for fn := range c.helpers {
 		seen := map[*ssa.Function]bool{}
@@ -106,11 +161,29 @@ func (c *Ctx) buildHelperIndex() {
 	}
 }
 
+func (c *Ctx) dumpHelpers() {
+	for fn, h := range c.helpers {
+		fmt.Printf("HELPER %s sites=%d caller=%s closure=%v\n", fn.String(), len(h.sites), h.caller.String(), h.closure != nil)
+	}
+}
+
 func helperOf(fn *ssa.Function) *helperInfo {
 	if curCtx == nil || fn == nil {
 		return nil
 	}
+	if h := curCtx.helpers[fn]; h != nil {
+		return h
+	}
 	return curCtx.helpers[rootFn(fn)]
+}
+
+// exactHelper: fn itself is a private helper — a top-level one or a private closure — not merely a function
+// literal inside one.
+func exactHelper(fn *ssa.Function) *helperInfo {
+	if curCtx == nil || fn == nil {
+		return nil
+	}
+	return curCtx.helpers[fn]
 }
 
 // liftTo: the instruction of `top` at which `in` (an instruction of top or of a private helper below it) happens;
@@ -120,8 +193,8 @@ func liftTo(in ssa.Instruction, top *ssa.Function) ssa.Instruction {
 		if in.Parent() == top {
 			return in
 		}
-		h := helperOf(in.Parent())
-		if h == nil || in.Parent().Parent() != nil {
+		h := exactHelper(in.Parent())
+		if h == nil {
 			return nil
 		}
 		in = h.site
@@ -134,10 +207,10 @@ func liftAll(in ssa.Instruction, top *ssa.Function, depth int) []ssa.Instruction
 	if in.Parent() == top {
 		return []ssa.Instruction{in}
 	}
-	if depth > 5 || in.Parent().Parent() != nil {
+	if depth > 5 {
 		return nil
 	}
-	h := helperOf(in.Parent())
+	h := exactHelper(in.Parent())
 	if h == nil {
 		return nil
 	}
@@ -221,11 +294,28 @@ func (c *Ctx) callsInDeep(fn *ssa.Function, pred func(ssa.CallInstruction) bool)
 // resolveArg: a private helper's parameter stands for the argument at its only call site.
 func resolveArg(v ssa.Value) ssa.Value {
 	for d := 0; d < 4; d++ {
+		if fv, isFV := v.(*ssa.FreeVar); isFV {
+			h := exactHelper(fv.Parent())
+			if h == nil || h.closure == nil {
+				return v
+			}
+			idx := -1
+			for k, x := range fv.Parent().FreeVars {
+				if x == fv {
+					idx = k
+				}
+			}
+			if idx < 0 || idx >= len(h.closure.Bindings) {
+				return v
+			}
+			v = h.closure.Bindings[idx]
+			continue
+		}
 		p, isP := v.(*ssa.Parameter)
-		if !isP || p.Parent().Parent() != nil {
+		if !isP {
 			return v
 		}
-		h := helperOf(p.Parent())
+		h := exactHelper(p.Parent())
 		if h == nil {
 			return v
 		}
@@ -355,8 +445,8 @@ func (c *Ctx) rootClassDeep(v ssa.Value) string {
 		if n, _ := fmt.Sscanf(cl, "p%d", &idx); n != 1 {
 			return cl
 		}
-		h := helperOf(fn)
-		if h == nil || len(h.sites) != 1 || fn.Parent() != nil || idx >= len(h.site.Common().Args) {
+		h := exactHelper(fn)
+		if h == nil || len(h.sites) != 1 || idx >= len(h.site.Common().Args) {
 			return cl
 		}
 		fn = h.site.Parent()
